@@ -56,6 +56,7 @@ func c12Gen() *symir.Gen {
 	g.Pkgs = []string{"p", "q"}
 	g.RefPkgs = []string{"p", "q"}
 	g.Names = []string{"Foo", "Bar"}
+	g.RefNames = []string{"Foo", "Bar", "Baz", "Qux"}
 	g.Fields = []string{"a", "b"}
 	g.Scalars = []string{"string", "int64", "any"}
 	g.Leaves = symir.KScalar | symir.KRef | symir.KEnum | symir.KConstScalar
@@ -86,7 +87,8 @@ func VerifC12GenerateSchema() {
 	otherName := g.Name()
 	v.Assume(otherName != mainName)
 	p.AddObject(ast.NewObject("p", otherName, plain.Type(0)))
-	q := plain.Schema("q", 0)
+	plain.Names = []string{"Foo", "Baz", "Qux"} // one name shared with p, two of its own
+	q := plain.Schema("q", 0, 0) // two objects: a reference chain of two hops through the other package is possible
 	if v.Bool("entrypoint") {
 		p.EntryPoint = g.Name()
 	}
@@ -196,6 +198,14 @@ func c12CheckType(d Definition, t ast.Type) {
 				if numeric {
 					key = "minimum"
 				}
+			case ast.GreaterThanOp:
+				if numeric {
+					key = "exclusiveMinimum"
+				}
+			case ast.LessThanEqualOp:
+				if numeric {
+					key = "maximum"
+				}
 			case ast.LessThanOp:
 				if numeric {
 					key = "exclusiveMaximum"
@@ -203,6 +213,12 @@ func c12CheckType(d Definition, t ast.Type) {
 			}
 			if key != "" && t.Scalar.ScalarKind != ast.KindAny {
 				v.Assert(d.Has(key) && v.DeepEqual(d.Get(key), c.Args[0]), "C12: a constraint is not carried over unchanged")
+				// and under no other bound keyword (an inclusive bound must not become exclusive, ...)
+				for _, other := range []string{"minimum", "exclusiveMinimum", "maximum", "exclusiveMaximum", "minLength", "maxLength"} {
+					if other != key && len(t.Scalar.Constraints) == 1 {
+						v.Assert(!d.Has(other), "C12: a constraint is emitted under the wrong keyword")
+					}
+				}
 			}
 		}
 		if t.Scalar.Value != nil {
